@@ -133,13 +133,22 @@ func awaitEnd(done <-chan struct{}, watchdog time.Duration) (endState, string) {
 			return gs, true
 		}
 		if _, q := quiet(); q {
-			time.Sleep(30 * time.Millisecond)
-			select {
-			case <-done:
-				return endClosed, ""
-			default:
+			// A goroutine parked in a select may be waiting for a timer: the state has to stay
+			// quiet over increasing pauses (30 ms, 300 ms, 1.5 s) before it is called a deadlock.
+			var gs []gInfo
+			still := true
+			for _, pause := range []time.Duration{30 * time.Millisecond, 300 * time.Millisecond, 1500 * time.Millisecond} {
+				time.Sleep(pause)
+				select {
+				case <-done:
+					return endClosed, ""
+				default:
+				}
+				if gs, still = quiet(); !still {
+					break
+				}
 			}
-			if gs, q2 := quiet(); q2 {
+			if still {
 				select {
 				case <-done:
 					return endClosed, ""
